@@ -42,6 +42,8 @@ GoodCorrection(ev) ==
     /\ r.pre_reason = (IF ev.combo.reason THEN "verif reason" ELSE "")
     /\ SetOf(ev.req_ext) \subseteq SetOf(r.pre_ext)
     /\ Stamps(ev.defs) \subseteq SetOf(r.pre_stamps)
+    \* the stamps carried over are the source's or the request's, value for value
+    /\ SetOf(r.pre_stamp_vals) \subseteq SetOf(ev.req_stamp_vals) \cup SetOf(ev.src_stamp_vals)
     /\ (ev.combo.copytax /\ ev.src_hastax => r.pre_hastax)     \* the copied summary is recalculated with the new document; only its presence is required
     /\ r.business = ev.src_business
 
